@@ -390,6 +390,51 @@ pub fn run(rep: &mut Report, tier: &str) {
             viol(rep, "float/wrong-interpretation", "from-u64", format!("UnsignedInteger({v}).parse_float()"));
         }
     }
+    // typed variants: accessors, conversions and the interpretation of values that are already numbers
+    for bits in [0u64, 1, 0x8000_0000_0000_0000, 0x3FF8_0000_0000_0000, 0x7FF0_0000_0000_0000, 0xFFF0_0000_0000_0000, 0x7FF8_0000_0000_0000, 0x000F_FFFF_FFFF_FFFF, 0x7FEF_FFFF_FFFF_FFFF, 0xC05E_DD2F_1A9F_BE77] {
+        let v = f64::from_bits(bits);
+        let cd = CharacterData::from(v);
+        rep.evaluations += 1;
+        rep.count("typed_variant_checks", 1);
+        let same = |a: Option<f64>| a.is_some_and(|a| a.to_bits() == v.to_bits() || (a.is_nan() && v.is_nan()));
+        if !matches!(cd, CharacterData::Float(_)) || !same(cd.float_value()) || !same(cd.parse_float()) {
+            viol(rep, "float/wrong-interpretation", "from-f64", format!("CharacterData::from({v:e}): float_value() = {:?}, parse_float() = {:?}", cd.float_value(), cd.parse_float()));
+        }
+        if cd.unsigned_integer_value().is_some() || cd.string_value().is_some() || cd.enum_value().is_some() || cd.parse_bool().is_some() {
+            viol(rep, "typed/accessor-of-another-kind-answers", "float", format!("Float({v:e}): unsigned_integer_value/string_value/enum_value/parse_bool must be None"));
+        }
+    }
+    for v in [0u64, 1, 2, 255, u64::from(u32::MAX), u64::MAX] {
+        let cd = CharacterData::from(v);
+        rep.evaluations += 1;
+        rep.count("typed_variant_checks", 1);
+        if cd.unsigned_integer_value() != Some(v) || cd.float_value().is_some() || cd.string_value().is_some() || cd.enum_value().is_some() {
+            viol(rep, "typed/accessor-of-another-kind-answers", "unsigned", format!("UnsignedInteger({v}): unsigned_integer_value() = {:?}", cd.unsigned_integer_value()));
+        }
+    }
+    for b in [true, false] {
+        let cd = CharacterData::from(b);
+        rep.evaluations += 1;
+        rep.count("typed_variant_checks", 1);
+        if cd.parse_bool() != Some(b) || cd.to_string() != b.to_string() {
+            viol(rep, "bool/wrong-interpretation", "from-bool", format!("CharacterData::from({b}) = {cd:?}: parse_bool() = {:?}", cd.parse_bool()));
+        }
+    }
+    for item in [autosar_data_specification::EnumItem::Abstract, autosar_data_specification::EnumItem::default, autosar_data_specification::EnumItem::EcuInstance] {
+        let cd = CharacterData::from(item);
+        rep.evaluations += 1;
+        rep.count("typed_variant_checks", 1);
+        if cd.enum_value() != Some(item) || cd.to_string() != item.to_str() || cd.string_value().is_some() || cd.parse_integer::<u32>().is_some() || cd.parse_float().is_some() {
+            viol(rep, "typed/accessor-of-another-kind-answers", "enum", format!("CharacterData::from({item:?}) = {cd:?}"));
+        }
+    }
+    for (text, cd) in [("abc", CharacterData::from("abc")), ("x y", CharacterData::from("x y".to_string()))] {
+        rep.evaluations += 1;
+        rep.count("typed_variant_checks", 1);
+        if cd.string_value().as_deref() != Some(text) || cd.float_value().is_some() || cd.unsigned_integer_value().is_some() || cd.enum_value().is_some() {
+            viol(rep, "typed/accessor-of-another-kind-answers", "string", format!("CharacterData::from({text:?}) = {cd:?}"));
+        }
+    }
     rep.sample(J::obj().with("kind", J::s("integer text")).with("texts", J::arr_of_str(int_texts.iter().skip(45).take(6).cloned())));
 
     // floats: expected values from CPython
